@@ -11,3 +11,7 @@ import FpgoVerif.Props.C01
 #print axioms FpgoVerif.C01.C01_toMaybe_flattens
 #print axioms FpgoVerif.C01.C01_clone
 #print axioms FpgoVerif.C01.C01_total
+#print axioms FpgoVerif.C01.C01_gen_interface_observed
+#print axioms FpgoVerif.C01.C01_gen_someDef_methods
+#print axioms FpgoVerif.C01.C01_gen_none_overrides
+#print axioms FpgoVerif.C01.C01_gen_conversions_guarded
